@@ -977,11 +977,13 @@ def robust_bases(tier, wd, rng):
         n = len(b["file"])
         lo, hi = b.pop("region", [0, min(n, 4096)])
         quick = tier == "quick"
+        from_spec = bool(b["fields"])
         if not b["fields"]:
             # no field map from the specification: every 4-aligned word of the region
             b["fields"] = [[o, 4] for o in range(lo, max(lo, hi - 4), 4)]
         b["plan"] = {"seed": seed() * 1000 + i, "region": [lo, hi],
                      "single": {"widths": [1, 4] if quick else [1, 2, 4, 8], "stride": 1},
+                     "field_singles": from_spec,
                      "pairs": 2500 if quick else 60000, "havoc": 2500 if quick else 60000}
     return stats, bases
 
@@ -995,15 +997,34 @@ def run_robust_base(idx, base, wd, profile):
     crashed = rc != 0
     if crashed:
         # the worker died (abort / stack overflow / kill): find the input it was executing
-        rc2, out2 = run([exe, "robust-run", bp, tp + ".each"], timeout=5400, env={"MP4V_EACH": "1"})
+        cur = tp + ".cur"
+        rc2, out2 = run([exe, "robust-run", bp, tp + ".each"], timeout=5400, env={"MP4V_EACH": "1", "MP4V_CUR": cur})
         last = [l for l in out2.split("\n") if l.startswith("EACH ")][-1:] or ["?"]
-        with open(tp, "a") as f:
+        try:
+            crash_input = json.load(open(cur))
+        except (OSError, ValueError):
+            crash_input = None
+        # the dying worker may have left a partial last line
+        good = []
+        for l in open(tp, errors="replace"):
+            try:
+                json.loads(l)
+                good.append(l if l.endswith("\n") else l + "\n")
+            except ValueError:
+                pass
+        with open(tp, "w") as f:
+            f.writelines(good)
             f.write(json.dumps({"e": "reset", "id": "base-%d" % idx}) + "\n")
             f.write(json.dumps({"e": "crash", "signal": rc, "last": last[0]}) + "\n")
     st = {}
     for l in out.strip().split("\n"):
         if l.startswith("{"):
             st = json.loads(l)
+    if not crashed and "phases" in st and base.get("plan"):
+        pl, ph = base["plan"], st["phases"]
+        if (pl.get("pairs", 0) > 0 and len(base.get("fields", [])) >= 2 and ph[2] == 0) or (pl.get("havoc", 0) > 0 and ph[3] == 0) \
+                or (pl.get("field_singles") and ph[1] == 0):
+            raise ToolError("vacuity: a planned mutation phase executed nothing on base %d: %s" % (idx, ph))
     r = tlc_trace("Trace_Total", tp, wd, timeout=1800)
     if not r["accepted"]:
         raise ToolError("Trace_Total did not consume the trace of base %d:\n%s" % (idx, r["raw_tail"][:2000]))
@@ -1014,7 +1035,7 @@ def run_robust_base(idx, base, wd, profile):
             if ev.get("e") == "case":
                 cases[json.dumps(ev["what"])] = ev
     return {"idx": idx, "profile": profile, "cases": st.get("cases", 0), "events": r["distinct"], "fails": r["fails"],
-            "inputs": cases, "crashed": crashed}
+            "inputs": cases, "crashed": crashed, "crash_input": crash_input if crashed else None}
 
 
 def robust_suite(tier):
@@ -1058,6 +1079,9 @@ def robust_suite(tier):
                             break
                 f["input"] = {"file": inp["input"], "init": bases[x["idx"]].get("init"), "mode": inp["mode"], "kind": bases[x["idx"]]["kind"],
                               "what": inp["what"]} if inp else None
+                if not inp and x.get("crash_input"):
+                    f["input"] = {"file": x["crash_input"], "init": bases[x["idx"]].get("init"), "mode": "frag" if bases[x["idx"]].get("init") else "open",
+                                  "kind": bases[x["idx"]]["kind"], "what": "worker crash"}
                 res["fails"].append(f)
     json.dump(res, open(cp, "w"))
     return res
